@@ -168,8 +168,8 @@ PROPS["C12"] = dict(
 )
 
 PROPS["C13"] = dict(
-    modules=["Sth.Props.C01", "Sth.Props.C08", "Sth.Props.C13", "Sth.Props.C13G"],
-    theorems=list(CORE_RL) + ['Sth.C13_step', 'Sth.C13_current_is_current', 'Sth.C13_current_prefix', 'Sth.C13_step_overwrite', 'Sth.C13_step_remove', 'Sth.C13_step_new_key', 'Sth.C13_step_immutable', 'Sth.C13_step_same_value', 'Sth.C13_step_malformed', 'Sth.C13_step_remove_absent', 'Sth.C13_step_other', 'Sth.C13_recorded_not_current', 'Sth.C13_current_not_recorded', 'Sth.C13_exactly_once', 'Sth.C13_run', 'Sth.C13_file_well_formed', 'Sth.C13_gc_nothing_current_recorded', 'Sth.C13_gc_nothing_current_recorded_cid', 'Sth.C13_gc_consumes', 'Sth.C13_gc_pool_after'],
+    modules=["Sth.Props.C01", "Sth.Props.C08", "Sth.Props.C13", "Sth.Props.C13G", "Sth.Props.C13H"],
+    theorems=list(CORE_RL) + ['Sth.C13_step', 'Sth.C13_current_is_current', 'Sth.C13_current_prefix', 'Sth.C13_step_overwrite', 'Sth.C13_step_remove', 'Sth.C13_step_new_key', 'Sth.C13_step_immutable', 'Sth.C13_step_same_value', 'Sth.C13_step_malformed', 'Sth.C13_step_remove_absent', 'Sth.C13_step_other', 'Sth.C13_recorded_not_current', 'Sth.C13_current_not_recorded', 'Sth.C13_exactly_once', 'Sth.C13_run', 'Sth.C13_file_well_formed', 'Sth.C13_gc_nothing_current_recorded', 'Sth.C13_gc_nothing_current_recorded_cid', 'Sth.C13_gc_consumes', 'Sth.C13_gc_pool_after', 'Sth.C13_gc_covered', 'Sth.C13_gc_exactly_once'],
     runs=[dict(engine="seq", quick=300, thorough=10000, extra=["-profile", "c13"], nontrivial=["freelist-nonempty", "pgc-relocated"]),
           dict(engine="sched", quick=120, thorough=10000, extra=["-profile", "c13"], nontrivial=["freelist-nonempty"])],
     rule="C04-style traces (small files, overwrites, removals, flushes, reopen, GC cycles with relocation and deadlines); after every "
@@ -186,10 +186,10 @@ PROPS["C13"] = dict(
 )
 
 PROPS["C11"] = dict(
-    modules=["Sth.Props.C01", "Sth.Props.C08", "Sth.Props.C11"],
+    modules=["Sth.Props.C01", "Sth.Props.C08", "Sth.Props.C11", "Sth.Props.C13H"],
     theorems=list(CORE_RL) + ["Sth.C11_index_file_released", "Sth.C11_index_released_stays", "Sth.C11_index_reap_free_file", "Sth.C11_primary_file_released",
                                 "Sth.C11_no_growth_index", "Sth.C11_no_growth_primary", "Sth.C11_relocation_pools_a_copy", "Sth.C11_reap_pools_at_most_two",
-                                "Sth.C11_fixed_point_primary", "Sth.C11_low_use_visit"],
+                                "Sth.C11_fixed_point_primary", "Sth.C11_low_use_visit", "Sth.C11_primary_file_released_unconditional"],
     runs=[dict(engine="seq", quick=200, thorough=10000, extra=["-profile", "c11"], nontrivial=["c11-dead-primary-files", "c11-unreferenced-index-files"]),
           dict(engine="crash", quick=48, thorough=600, extra=["-profile", "c11d"], nontrivial=["c11-drain-after-recovery"])],
     crash_lines=True,
